@@ -70,6 +70,11 @@ type Scenario struct {
 	Pos     int    `json:"pos,omitempty"`  // corruption position
 	Repl    int    `json:"repl,omitempty"` // replacement byte
 	TCP     bool   `json:"tcp,omitempty"`
+	// round 7 (h2relay.go): header block shape on the HTTP/2 path of an intercepted connection
+	Atoms string `json:"atoms,omitempty"` // HPACK atoms of the block under test, comma separated
+	Std   bool   `json:"std,omitempty"`   // the mandatory pseudo-header fields are added to the block
+	Prio  bool   `json:"prio,omitempty"`  // the HEADERS frame carries priority information
+	Big   int    `json:"big,omitempty"`   // > 0: the block carries one field whose value has this many bytes
 }
 
 type script struct {
@@ -260,7 +265,7 @@ func scenarios(tier string, keep func(id int) bool) (map[int]*Scenario, int, map
 			return
 		}
 		// loopback-TCP re-run of every 9th (quick) / 197th (thorough) scenario, except the multi-megabyte streams
-		if !(s.Script == "oversized_header" || s.Script == "huge_method" || s.Script == "long_uri" || s.Script == "long_header") {
+		if !(s.Script == "oversized_header" || s.Script == "huge_method" || s.Script == "long_uri" || s.Script == "long_header" || s.Script == "h2_relay") { // h2_relay: its upstream side is a loopback socket in either mode
 			s.TCP = s.ID%9 == 0
 			if tier == "thorough" {
 				s.TCP = s.ID%197 == 0 // sparser: loopback sockets linger in TIME_WAIT and ephemeral ports are finite
@@ -431,6 +436,9 @@ func scenarios(tier string, keep func(id int) bool) (map[int]*Scenario, int, map
 	auditScenarios(tier, add)
 	// 6. client byte streams against a proxy with MITM enabled
 	mitmScenarios(tier, add)
+	// 7. round 7: framed answers of a downstream proxy to CONNECT cut at every offset (round7.go) and header
+	// block shapes on the HTTP/2 path of an intercepted connection (h2relay.go)
+	round7Scenarios(tier, add)
 	// 5b (thorough). every two-byte corruption window of the same requests: both bytes replaced by every pair
 	// over {NUL, LF, CR, SP, 0xff}
 	if tier == "thorough" {
@@ -1322,7 +1330,7 @@ func runDownstreamConnect(s *Scenario, kind string, quiet time.Duration) *runOut
 	out := &runOut{}
 	rec := &recorder{}
 	var ds script
-	for _, d := range downstreamScripts {
+	for _, d := range append(append([]script{}, downstreamScripts...), downstreamScriptsR7...) {
 		if d.name == s.Script {
 			ds = d
 		}
@@ -1388,9 +1396,18 @@ func runDownstreamConnect(s *Scenario, kind string, quiet time.Duration) *runOut
 	if s.Pipe {
 		first = append(first, second...)
 	}
-	cl.Send(first)
-	lines, end := cl.ReadHead()
+	var lines []string
+	var end string
 	status := ""
+	var c2 *h1harness.Client
+	cl.Send(first)
+	if isR7Downstream(ds.name) && !headIncomplete {
+		// round 7: the answer's head is complete - what the client receives is judged as a response (refusal)
+		// or as the start of the tunnel (2xx followed by early tunnel bytes)
+		downstreamBodyVerdict(s, ds, cl, out, report)
+		goto fresh
+	}
+	lines, end = cl.ReadHead()
 	if end == h1harness.EndOK && len(lines) > 0 {
 		if f := strings.Fields(lines[0]); len(f) >= 2 {
 			status = f[1]
@@ -1446,9 +1463,10 @@ func runDownstreamConnect(s *Scenario, kind string, quiet time.Duration) *runOut
 	if _, e := cl.Drain(); e == h1harness.EndHang {
 		report("hang", "after the client's EOF the connection is neither served nor closed within the hang deadline")
 	}
+fresh:
 	cl.Conn.Close()
 	// the proxy must still serve a fresh connection
-	c2, err := env.NewClient()
+	c2, err = env.NewClient()
 	if err != nil {
 		report("proxy_dead_after_stream", err.Error())
 		return out
@@ -1503,6 +1521,15 @@ func runCase(s *Scenario) *h1harness.CaseResult {
 		res.C["nontrivial"]++
 	}
 	res.K["outcomes"] = []string{s.Kind + ":" + o.outcome}
+	if s.Script == "h2_relay" {
+		res.C["r7_h2_relay_scenarios"]++
+		res.C["r7_"+strings.TrimPrefix(h2RelayClass(s), "h2_relay+")]++
+		res.K["r7_h2_outcomes"] = []string{h2Sender(s.Follow) + ": " + o.outcome}
+	}
+	if s.Kind == "downstream" && isR7Downstream(s.Script) {
+		res.C["r7_downstream_scenarios"]++
+		res.K["r7_downstream_outcomes"] = []string{o.outcome}
+	}
 	var syms []string
 	seen := map[string]bool{}
 	for _, f := range o.findings {
@@ -1609,7 +1636,7 @@ func main() {
 	rep.Coverage["distinct_nontrivial"] = rep.Counter("nontrivial")
 	rep.Coverage["distinct_outcomes"] = len(agg.Keys["outcomes"])
 	rep.Coverage["exhaustive"] = rep.Incomplete == ""
-	rep.Coverage["rule"] = "modifier configurations {none, har.NewLogger(), martianlog.NewLogger(), marbl.NewModifier} as request+response modifier for the truncation family; truncate: response script x client protocol x {fresh, reused upstream connection} x {GET, POST} x every offset k in 0..len(script) (origin writes k bytes, closes); dial: first dial fails with {refused, timeout (net.Error), io.EOF, io.ErrClosedPipe, io.ErrUnexpectedEOF, generic error} on the plain-HTTP path (GET/POST, the transport dials) and on the CONNECT path (the proxy's connect() dials), or is accepted-then-closed, x second request afterwards / already pipelined; the failing dial returns next to its error {untyped nil, typed-nil *tls.Conn, typed-nil *net.TCPConn, an already closed connection}; garbage: 20 non-HTTP/malformed origin answers and 60 answers with a valid status line followed by a header line carrying one of {NUL, SOH, BEL, BS, ESC, DEL, 0x80, 0xff, bare CR, TAB} at the start/middle/end of its name or value, x every prefix (oversized header: 3 offsets); client: 35 client byte streams x every prefix (3 oversized ones: listed offsets) and every single-byte corruption (replacement set) of 3 valid requests; mitm: proxy with SetMITM, 23 CONNECT request-line/Host shapes x 9 continuations after the 200 (ClientHello with SNI / without SNI / TLS 1.2 without SNI, plaintext request, two kinds of garbage, a lone 0x16, close, close without reading) and a no-SNI ClientHello cut at every offset, each followed by a marker request on a fresh connection; every other scenario continues with a well-formed request for a marker response on the same client connection. Non-trivial: the fault happens after at least one byte (k > 0), or is a dial fault or a corruption."
+	rep.Coverage["rule"] = "modifier configurations {none, har.NewLogger(), martianlog.NewLogger(), marbl.NewModifier} as request+response modifier for the truncation family; truncate: response script x client protocol x {fresh, reused upstream connection} x {GET, POST} x every offset k in 0..len(script) (origin writes k bytes, closes); dial: first dial fails with {refused, timeout (net.Error), io.EOF, io.ErrClosedPipe, io.ErrUnexpectedEOF, generic error} on the plain-HTTP path (GET/POST, the transport dials) and on the CONNECT path (the proxy's connect() dials), or is accepted-then-closed, x second request afterwards / already pipelined; the failing dial returns next to its error {untyped nil, typed-nil *tls.Conn, typed-nil *net.TCPConn, an already closed connection}; garbage: 20 non-HTTP/malformed origin answers and 60 answers with a valid status line followed by a header line carrying one of {NUL, SOH, BEL, BS, ESC, DEL, 0x80, 0xff, bare CR, TAB} at the start/middle/end of its name or value, x every prefix (oversized header: 3 offsets); client: 35 client byte streams x every prefix (3 oversized ones: listed offsets) and every single-byte corruption (replacement set) of 3 valid requests; mitm: proxy with SetMITM, 23 CONNECT request-line/Host shapes x 9 continuations after the 200 (ClientHello with SNI / without SNI / TLS 1.2 without SNI, plaintext request, two kinds of garbage, a lone 0x16, close, close without reading) and a no-SNI ClientHello cut at every offset, each followed by a marker request on a fresh connection; every other scenario continues with a well-formed request for a marker response on the same client connection; round 7: downstream r7_*: 8 framings of the downstream proxy's answer to CONNECT (Content-Length / +Connection: close / chunked / chunked+trailer / close-delimited refusals, 2xx + early tunnel bytes) x every offset, body judged; h2_relay: MITM + h2.Config with a scripted raw-frame HTTP/2 origin and client, the header block under test at 5 positions (request HEADERS, request trailers, response HEADERS, response trailers, PUSH_PROMISE) x every sequence of <= 2 (thorough 3) HPACK atoms out of 7 x {bare, with pseudo-header fields}, x every HEADERS/CONTINUATION cut offset (quick: 4), x block sizes around 16384 and 32768 with/without priority, and the origin's h2 answer cut at every byte offset. Non-trivial: the fault happens after at least one byte (k > 0), or is a dial fault or a corruption."
 	rep.Coverage["bounds"] = fmt.Sprintf("tier %s: %d scenarios %v; scripts %d; one client connection (+1 fresh probe connection for client streams); loopback-TCP re-run of every 9th (quick) / 197th (thorough) scenario", tier, total, fams, len(scripts(tier)))
 	rep.Assumptions = []string{
 		"an origin that stalls without closing is not modelled (would need the proxy's 5-minute timeout)",
